@@ -33,9 +33,18 @@ class RegexObj:
         self.src = src
 
 
+WORD_PARTS = r'\b[\p{Alphabetic}\p{M}\p{Pc}\p{Join_Control}]+\b'
+PUNCT = r'^\p{P}+$'
+ASCII_P = set('!"#%&\'()*,-./:;?@[\\]_{}')
+
+
 def parse_regex(src):
     """src: python str.  Returns list of alternatives; each a list of (atom, quant) with atom =
     ('lit', cp) | ('ws',) | ('nws',) | ('bol',) | ('eol',)."""
+    if src == WORD_PARTS:
+        return 'WORD_PARTS'
+    if src == PUNCT:
+        return 'PUNCT'
     alts = [[]]
     i = 0
     n = len(src)
@@ -125,8 +134,59 @@ def match_seq(ctx, seq, chars, pos, k=0):
     return None
 
 
+def ascii_class(ctx, c):
+    """Class of an ASCII character for the two Unicode-class patterns (anything else is outside the model):
+    'L' letter, 'P' punctuation (Unicode P), 'O' other non-word character (space, symbols)."""
+    if isinstance(c.v, int):
+        v = c.v
+    else:
+        if not ctx.must(z3.ULT(c.v, 0x80)):
+            raise Unsupported('Unicode-class regex on a symbolic non-ASCII character')
+        for lo, hi in ((0x41, 0x5A), (0x61, 0x7A)):
+            if ctx.branch(z3.And(z3.UGE(c.v, lo), z3.ULE(c.v, hi))):
+                return 'L'
+        for p in sorted(ASCII_P):
+            if p != '_' and ctx.branch(c.v == ord(p)):
+                return 'P'
+        if ctx.branch(z3.Or(c.v == 0x5F, z3.And(z3.UGE(c.v, 0x30), z3.ULE(c.v, 0x39)))):
+            raise Unsupported('digits / underscore inside word-part matching are outside the model')
+        return 'O'
+    if v >= 0x80:
+        raise Unsupported('Unicode-class regex on a non-ASCII character')
+    ch = chr(v)
+    if ch.isalpha():
+        return 'L'
+    if ch == '_' or ch.isdigit():
+        raise Unsupported('digits / underscore inside word-part matching are outside the model')
+    if ch in ASCII_P:
+        return 'P'
+    return 'O'
+
+
+def find_all_special(ctx, kind, chars):
+    cls = [ascii_class(ctx, c) for c in chars]
+    if kind == 'PUNCT':
+        return [(0, len(chars))] if chars and all(k == 'P' for k in cls) else []
+    out, st = [], None
+    for i, k in enumerate(cls):
+        if k == 'L':
+            if st is None:
+                st = i
+        elif st is not None:
+            out.append((st, i))
+            st = None
+    if st is not None:
+        out.append((st, len(chars)))
+    return out
+
+
 def find_at(ctx, rx, chars, start):
     """Leftmost-first match starting the scan at `start`; returns (s, e) or None."""
+    if isinstance(rx.alts, str):
+        for (s, e) in find_all_special(ctx, rx.alts, chars):
+            if s >= start:
+                return s, e
+        return None
     for s in range(start, len(chars) + 1):
         for alt in rx.alts:
             e = match_seq(ctx, alt, chars, s)
@@ -136,6 +196,8 @@ def find_at(ctx, rx, chars, start):
 
 
 def find_all(ctx, rx, chars):
+    if isinstance(rx.alts, str):
+        return find_all_special(ctx, rx.alts, chars)
     out = []
     pos = 0
     last_end = -1
